@@ -294,14 +294,25 @@ class C03(Check):
                             if m:
                                 keys = [int(t) // 16 for t in m.group(1).split()]
                                 if any(a > b for a, b in zip(keys, keys[1:])):
-                                    fails.append((i, k, 'sort left a non-ascending sequence: `%s`' % o[k].split(' | ')[1][:200]))
+                                    fails.append((i, k, '%s `%s`' % ('sort left a non-ascending sequence:'.ljust(80), o[k].split(' | ')[1][:200])))
                     s2 = s[:f] + [self._norm_kv(x) for x in s[f:]]
                     o2 = o[:f] + [self._norm_kv(x) for x in o[f:]]
             k = first_diff(s2, o2)
             if k is not None:
                 exp = s[k] if k < len(s) else '<nothing>'
                 got = o[k] if k < len(o) else '<nothing>'
-                fails.append((i, k, 'spec expects `%s`, implementation gives `%s`' % (exp[:300], got[:300])))
+                # a short tag first: vf.py groups failing cases by the head of the reason
+                if got.startswith('!'):
+                    tag = 'the implementation stops with `%s` in %s' % (got.split(' | ')[0], cont)
+                elif exp.startswith('end live'):
+                    tag = 'elements still alive after every container was destroyed (leak / double construction)'
+                elif ' f ! b ! ' in got:
+                    tag = 'front()/back() of %s do not compile' % cont
+                elif exp.split(' | ')[0] != got.split(' | ')[0]:
+                    tag = 'returned iterator/reference/result of `%s` differs' % (ops[k].split()[0] if k < len(ops) else '?')
+                else:
+                    tag = 'contents after `%s` differ' % (ops[k].split()[0] if k < len(ops) else '?')
+                fails.append((i, k, '%s spec expects `%s`, implementation gives `%s`' % ((tag + ':').ljust(80), exp[:300], got[:300])))
                 continue
             if cont == 'array':
                 for k, l in enumerate(o):
